@@ -852,6 +852,11 @@ def real_history_configs(tier):
         ops = [op(keys) for _ in range(5)]
         if not any(o[0] in ('vle', 'lle', 'sle', 'vlle') for o in ops[1:]):
             ops.append(['vle', 'TP', {'T': rnd.uniform(300., 420.), 'P': 101325.}])
+        if n % 3 == 0 and 'W' in keys and 'E' in keys:
+            # a REACTIVE flash earlier in the history (it changes the material by design and is not checked itself; the ordinary
+            # calculations after it are - added after seeded change C03_6: reaction bookkeeping left on the solver object)
+            ops.insert(rnd.choice([0, 1]), ['rvle', None, {'T': rnd.uniform(345., 365.), 'P': 101325., 'X': rnd.uniform(0.1, 0.5)}])
+            ops.append(['vle', 'TPr', {'T': 0., 'P': 101325., 'V': 0.5, 'dH': 0., 'Vref': rnd.uniform(0.2, 0.8)}])
         out.append({'name': f'seq/{keys}/{start[0]}-{start[1]}/{n}', 'kind': 'seq', 'pkg': keys, 'start': start,
                     'flows': flows(keys, start[1]), 'ops': ops})
     for n in range(n_ctor):
@@ -871,6 +876,11 @@ def real_history_configs(tier):
         liq = {f'l.{k}': 10 ** rnd.uniform(-2, 3) for k in keys if CHEMS[k][1] == 'l' or (CHEMS[k][1] is None and rnd.random() < 0.8)}
         out.append({'name': f'vent/{keys}/{n}', 'kind': 'vent', 'pkg': keys, 'gas': gas, 'liq': liq, 'eb': n % 2 == 0,
                     'vals': {'Tg': rnd.uniform(290., 400.), 'Tl': rnd.uniform(290., 370.)}})
+    for n in range(4 if tier == 'quick' else 24):
+        # an ordinary flash AFTER a reactive flash on the same stream (added after seeded change C03_6)
+        keys = ['WEM', 'WEX', 'WEO', 'WENX'][n % 4]
+        out.append({'name': f'react/{keys}/{n}', 'kind': 'react', 'pkg': keys, 'flows': flows(keys, 'l', 1.0),
+                    'vals': {'Vref': rnd.uniform(0.25, 0.75), 'P': 101325. * rnd.choice([0.5, 1., 2.]), 'X': rnd.uniform(0.1, 0.6)}})
     for n in range(n_shgo):
         keys = ['WE', 'WEM'][n % 2]
         out.append({'name': f'shgo/{keys}/{n}', 'kind': 'shgo', 'pkg': keys, 'flows': flows(keys, 'gl', 1.0),
@@ -958,6 +968,10 @@ def real_histories(w, cfg):
                 if isinstance(s, tmo.MultiStream) and v['phase'] in s.phases: s.imol[v['phase'], chem(arg).ID] = v['v']
                 elif not isinstance(s, tmo.MultiStream): s.imol[chem(arg).ID] = v['v']
                 continue
+            if op == 'rvle':
+                rxn = tmo.Reaction('Ethanol -> Water', reactant='Ethanol', X=v['X'], chemicals=th.chemicals, check_atomic_balance=False)
+                attempt(lambda: s.vle(T=v['T'], P=v['P'], liquid_conversion=rxn))
+                continue
             if op == 'vle':
                 kw = {}
                 for c in arg:
@@ -982,6 +996,21 @@ def real_histories(w, cfg):
             if not ok: continue
             done += 1
             check(s, before, owned, op in ('vle', 'vlle'), f'op {n} ({op}): ')
+    elif kind == 'react':
+        v = cfg['vals']
+        s = tmo.Stream(None, phase='l', thermo=th)
+        _plant_real(s, cfg['flows'])
+        ref = s.copy()
+        if attempt(lambda: ref.vle(P=v['P'], V=v['Vref'])):
+            T0 = ref.T
+            rxn = tmo.Reaction('Ethanol -> Water', reactant='Ethanol', X=v['X'], chemicals=th.chemicals, check_atomic_balance=False)
+            reacted = attempt(lambda: s.vle(T=T0, P=v['P'], liquid_conversion=rxn))      # changes the material by design; not checked
+            w.note(reactive_flash_returned=reacted)
+            for n, dT in enumerate((0.5, -0.5, 0.)):
+                before = {k: x for k, x in flows_now(s).items() if x}
+                if attempt(lambda: s.vle(T=T0 + dT, P=v['P'])):
+                    done += 1
+                    check(s, before, ('g', 'l'), True, f'ordinary flash #{n} after a reactive flash: ')
     elif kind == 'ctor':
         v = cfg['vals']
         before = {}
